@@ -48,7 +48,7 @@ impl St {
         let socks = unsafe { &*self.sockets };
         let mut s = format!("T{} paused={} tmo={} next={} bits={:x} wake={} wq={} H=[{}]", self.turn, a.paused as u8,
             a.timeout.map(|d| d.as_millis().to_string()).unwrap_or("none".into()), a.next,
-            (0..128).fold(0u128, |acc, i| acc | ((a.avail.get_available(i) as u128) << i)),
+            crate::availability::raw(&a.avail)[0],
             a.waker_queue.0.pending.get(), a.waker_queue.guard().len(),
             a.handles.iter().map(|h| h.idx().to_string()).collect::<Vec<_>>().join(","));
         for w in self.workers.iter_mut() {
